@@ -416,10 +416,20 @@ impl C12 {
                 } else {
                     vec![(None, None), (Some(x.from & 7), None), (Some(x.from & 7), Some(x.from >> 3))]
                 };
+                // every optional decoration too: a decorated text may take another path through the parser
+                let is_ep = p.is_ep_capture(*x);
                 for (sf, sr) in shapes {
-                    for suf in [None, Some('+')].iter() {
-                        let q = Parts { piece, src_file: sf, src_rank: sr, takes, dest: x.to, promo: x.promo, suffix: *suf, ep_suffix: false };
-                        check(b, p, legal, &San::Normal(q), "pseudo-legal-but-illegal-move", rep);
+                    for suf in [None, Some('+'), Some('#')].iter() {
+                        for eps in [false, true].iter() {
+                            if *eps && !is_ep {
+                                continue;
+                            }
+                            let q = Parts { piece, src_file: sf, src_rank: sr, takes, dest: x.to, promo: x.promo, suffix: *suf, ep_suffix: *eps };
+                            if is_ep {
+                                rep.count("ev_illegal_ep_capture_spelled");
+                            }
+                            check(b, p, legal, &San::Normal(q), "pseudo-legal-but-illegal-move", rep);
+                        }
                     }
                 }
             }
@@ -559,6 +569,9 @@ fn fuzz_text(rng: &mut Rng, p: &RPos, legal: &[RMove]) -> String {
 }
 
 impl NodeMon for C12 {
+    fn through_rights_divergence(&self) -> bool {
+        true
+    }
     fn begin(&mut self, _s: &crate::synth::Start, _rep: &mut Report) {
         self.prev = None;
     }
